@@ -1,4 +1,5 @@
 import Ivg.Lemmas.FitQ
+import Ivg.Lemmas.Fit32c
 import Ivg.Gen.Tie.MiscFields
 import Ivg.Obligations
 /-!
@@ -12,9 +13,11 @@ divided according to the alignment fractions: 0 aligns the minima, 0.5 centres, 
 Size returns max minus min in each dimension."
 
 The model (`Ivg/Model/ViewBox.lean`, mirroring `/repo/ivg.go`) is number-generic.  The theorems below
-are about its instance at EXACT arithmetic (`ℚ`, `Ivg/Lemmas/RatInst.lean`): the same program text,
-computed without rounding, satisfies every clause of the property exactly.  See the end of the file
-for what this does not cover.
+are, first, about its instance at EXACT arithmetic (`ℚ`, `Ivg/Lemmas/RatInst.lean`): the same program
+text, computed without rounding, satisfies every clause of the property exactly; and second (section
+"float32"), about its instance at `F32` (bit-exact with Go): under an explicit range hypothesis the
+float results are within a few units of `2^-24` of the exact ones.  See the end of the file for what
+is not covered.
 -/
 namespace Ivg.Props.C12
 open Ivg FitQ
@@ -77,15 +80,230 @@ example : (⟨-2, 0, 2, 2⟩ : ViewBox ℚ).aspectMeet 10 10 0 1 = (0, 5, 10, 10
     the type's own; at `ℚ` it is exact). -/
 theorem size_eq (v : ViewBox ℚ) : v.size = (v.maxX - v.minX, v.maxY - v.minY) := FitQ.size_eq v
 
+
+/-!
+## float32: the `F32` instance against the `ℚ` instance
+
+`u = 2^-24` (`FloatErr.u`), `val a` the rational value of a finite `F32`, `Fn a` "finite".
+The soft-float operations are correctly rounded (`FloatMono32.add_Rnd` … `div_Rnd`, ported from the
+binary64 proofs); `Rnd_rel_err` / `Rnd_abs_err` turn that into the standard error model.
+The analysis is in `Ivg/Lemmas/FloatErr.lean`, `Fit32.lean`, `Fit32b.lean`, `Fit32c.lean`.
+-/
+
+open Num FloatOrder32 FloatMono32 FloatErr Fit32
+
+/-- **Standard model, normal range**: if the bit pattern `b` is the correct rounding (nearest, ties to even)
+    of the rational `v` and `2^-126 ≤ |v| < 2^128 − 2^103` (`ovf`, the exact overflow threshold), then `b` is
+    finite and `|val b − v| ≤ 2^-24·|v|`. -/
+theorem Rnd_rel_err (v : ℚ) (b : Nat) (h : Rnd v b) (hlo : pow2 (-126) ≤ |v|) (hhi : |v| < ovf) :
+    FinB b ∧ |bval b - v| ≤ pow2 (-24) * |v| := FloatErr.Rnd_rel_err v b h hlo hhi
+
+-- non-vacuity: `1/3` rounds to `0x3EAAAAAB`, and `1/3` is in the normal range
+set_option maxRecDepth 100000 in
+example : Rnd (1 / 3) 0x3EAAAAAB ∧ pow2 (-126) ≤ |(1 / 3 : ℚ)| ∧ |(1 / 3 : ℚ)| < ovf := by
+  have h := div_Rnd 0x3F800000 0x40400000 (by decide) (by decide) (by decide)
+  have e : Num.div .f32 0x3F800000 0x40400000 = 0x3EAAAAAB := by decide +kernel
+  have e3 : bval 0x40400000 = 3 := by
+    have h1 : negB32 0x40400000 = false := by decide
+    have h2 : mantB 0x40400000 = 12582912 := by decide
+    have h3 : expB 0x40400000 = -22 := by decide
+    unfold bval sval; rw [h1, h2, h3]; unfold pow2; norm_num
+  rw [e, bval_one, e3] at h
+  refine ⟨h, ?_, ?_⟩
+  · unfold pow2; norm_num [abs_of_pos]
+  · unfold ovf pow2; norm_num [abs_of_pos]
+
+/-- **Standard model, below the normal range** (gradual underflow): `|val b − v| ≤ 2^-150`. -/
+theorem Rnd_abs_err (v : ℚ) (b : Nat) (h : Rnd v b) (hlo : |v| < pow2 (-126)) :
+    FinB b ∧ |bval b - v| ≤ pow2 (-150) := FloatErr.Rnd_abs_err v b h hlo
+
+/-- … and sums and differences of floats are never affected by gradual underflow: relative error `u`
+    whenever the exact result does not exceed the largest float. -/
+theorem sub_err {a b : F32} (ha : Fn a) (hb : Fn b) (hr : |val a - val b| ≤ maxv) :
+    Fn (a - b) ∧ |val (a - b) - (val a - val b)| ≤ u * |val a - val b| := FloatErr.sub_err ha hb hr
+
+/-- Clause "Size returns max minus min in each dimension", at `F32`: `v.size` is (by definition) the pair of
+    float32 differences; each is the exact difference up to relative `2^-24`, also in the subnormal range,
+    and finite whenever the exact difference is at most the largest float.  The fitting theorems below are
+    stated in terms of this float width and height. -/
+theorem size_f32 (v : ViewBox F32) (f1 : Fn v.minX) (f2 : Fn v.minY) (f3 : Fn v.maxX) (f4 : Fn v.maxY)
+    (hx : |val v.maxX - val v.minX| ≤ maxv) (hy : |val v.maxY - val v.minY| ≤ maxv) :
+    (Fn v.size.1 ∧ |val v.size.1 - (val v.maxX - val v.minX)| ≤ u * |val v.maxX - val v.minX|) ∧
+    (Fn v.size.2 ∧ |val v.size.2 - (val v.maxY - val v.minY)| ≤ u * |val v.maxY - val v.minY|) :=
+  Fit32.size_f32 v f1 f2 f3 f4 hx hy
+
+/-- (a) **the branch taken**: with `vw, vh` the float width and height, the float comparison
+    `dx/dy < vw/vh` is true only if it is true of the exact ratios (monotonicity of rounding); it can miss
+    a true `dx/dy < vw/vh` only when `(1−u)·(vw/vh) ≤ (1+u)·(dx/dy)`, i.e. the ratios are within `≈ 2u` of
+    each other — and the size bounds of `meet_f32` / `slice_f32` hold in that case too. -/
+theorem branch_agrees {vw vh dx dy : F32} (hvw : FP vw) (hvh : FP vh) (hdx : FP dx) (hdy : FP dy)
+    (hr : InRange (val vw) (val vh) (val dx) (val dy)) :
+    (dx / dy < vw / vh → val dx / val dy < val vw / val vh) ∧
+    (¬ dx / dy < vw / vh → val dx / val dy < val vw / val vh →
+      (1 - u) * (val vw / val vh) ≤ (1 + u) * (val dx / val dy)) :=
+  Fit32.branch_agrees hvw hvh hdx hdy hr
+
+/-- (b)(c)(d) **meet**, in terms of the size `(w, h) = meetSize vw vh dx dy` the code chooses and the
+    placement `place d s a = ((d − s)·a, (d − s)·a + s)` (`aspectMeet_eq32`: this IS `aspectMeet`).
+    `MeetF32` says, for the exact fitted size `(W, H)` (the `ℚ` instance at the values of the inputs):
+    `size`: `w, h` finite, `(1−3u)·W ≤ w ≤ (1+3u)·W`, same for `h`;  `size_touch`: `w = dx ∨ h = dy` as floats;
+    `touch`: in that dimension the returned minimum has value 0 and the maximum is the target's, bit for bit;
+    `x`, `y` (`Placed`): finite; `|min − a·(D−S)| ≤ 6u·(D+S)`, `|max − (a·(D−S)+S)| ≤ 7u·(D+S)`; and since
+    `fits : W ≤ dx ∧ H ≤ dy`, `-(4u·D) ≤ min` and `max ≤ (1+5u)·D`. -/
+theorem meet_f32 {vw vh dx dy ax ay : F32} (h : Hyp vw vh dx dy ax ay) :
+    MeetF32 dx dy ax ay (meetSizeQ (val vw) (val vh) (val dx) (val dy)).1
+      (meetSizeQ (val vw) (val vh) (val dx) (val dy)).2
+      (meetSize vw vh dx dy).1 (meetSize vw vh dx dy).2
+      (place dx (meetSize vw vh dx dy).1 ax).1 (place dy (meetSize vw vh dx dy).2 ay).1
+      (place dx (meetSize vw vh dx dy).1 ax).2 (place dy (meetSize vw vh dx dy).2 ay).2 := Fit32.meet_f32 h
+
+/-- (b)(c)(d) **slice**: the same with `covers : dx ≤ W ∧ dy ≤ H`, hence `min ≤ 4u·D` and
+    `D − 6u·(D+S) ≤ max`. -/
+theorem slice_f32 {vw vh dx dy ax ay : F32} (h : Hyp vw vh dx dy ax ay) :
+    SliceF32 dx dy ax ay (sliceSizeQ (val vw) (val vh) (val dx) (val dy)).1
+      (sliceSizeQ (val vw) (val vh) (val dx) (val dy)).2
+      (sliceSize vw vh dx dy).1 (sliceSize vw vh dx dy).2
+      (place dx (sliceSize vw vh dx dy).1 ax).1 (place dy (sliceSize vw vh dx dy).2 ay).1
+      (place dx (sliceSize vw vh dx dy).1 ax).2 (place dy (sliceSize vw vh dx dy).2 ay).2 := Fit32.slice_f32 h
+
+/-- (b) in the form `|w − w*| ≤ C·2^-24·w*` with `C = 3`, meet and slice. -/
+theorem size_err {vw vh dx dy ax ay : F32} (h : Hyp vw vh dx dy ax ay) :
+    (|val (meetSize vw vh dx dy).1 - (meetSizeQ (val vw) (val vh) (val dx) (val dy)).1| ≤
+      3 * u * (meetSizeQ (val vw) (val vh) (val dx) (val dy)).1 ∧
+     |val (meetSize vw vh dx dy).2 - (meetSizeQ (val vw) (val vh) (val dx) (val dy)).2| ≤
+      3 * u * (meetSizeQ (val vw) (val vh) (val dx) (val dy)).2) ∧
+    (|val (sliceSize vw vh dx dy).1 - (sliceSizeQ (val vw) (val vh) (val dx) (val dy)).1| ≤
+      3 * u * (sliceSizeQ (val vw) (val vh) (val dx) (val dy)).1 ∧
+     |val (sliceSize vw vh dx dy).2 - (sliceSizeQ (val vw) (val vh) (val dx) (val dy)).2| ≤
+      3 * u * (sliceSizeQ (val vw) (val vh) (val dx) (val dy)).2) :=
+  ⟨Fit32.meet_size_err h, Fit32.slice_size_err h⟩
+
+/-- the model functions ARE `meetSize`/`sliceSize` followed by `place` in each dimension -/
+theorem aspect_eq32 (v : ViewBox F32) (dx dy ax ay : F32) :
+    v.aspectMeet dx dy ax ay =
+      ((place dx (meetSize v.size.1 v.size.2 dx dy).1 ax).1, (place dy (meetSize v.size.1 v.size.2 dx dy).2 ay).1,
+       (place dx (meetSize v.size.1 v.size.2 dx dy).1 ax).2, (place dy (meetSize v.size.1 v.size.2 dx dy).2 ay).2) ∧
+    v.aspectSlice dx dy ax ay =
+      ((place dx (sliceSize v.size.1 v.size.2 dx dy).1 ax).1, (place dy (sliceSize v.size.1 v.size.2 dx dy).2 ay).1,
+       (place dx (sliceSize v.size.1 v.size.2 dx dy).1 ax).2, (place dy (sliceSize v.size.1 v.size.2 dx dy).2 ay).2) :=
+  ⟨aspectMeet_eq32 v dx dy ax ay, aspectSlice_eq32 v dx dy ax ay⟩
+
+/-- the returned width and height (differences of the returned corners) are the exact fitted ones up to
+    `13u·(target side + fitted side)` -/
+theorem returned_size_near {r : F32 × F32 × F32 × F32} {q : ℚ × ℚ × ℚ × ℚ} {dx dy : ℚ} (h : CornersNear r q dx dy) :
+    |(val r.2.2.1 - val r.1) - (q.2.2.1 - q.1)| ≤ 13 * u * (dx + (q.2.2.1 - q.1)) ∧
+    |(val r.2.2.2 - val r.2.1) - (q.2.2.2 - q.2.1)| ≤ 13 * u * (dy + (q.2.2.2 - q.2.1)) := h.size
+
+/-- **meet, `F32` instance against `ℚ` instance**: for every rational viewBox `vq` whose width and height
+    are the values of the float width and height (`Ref`), the float result is finite (`Fin4`); every corner
+    is within `6u` resp. `7u` times (target side + fitted side) of the exact corner (`CornersNear`); the
+    rectangle lies in the target enlarged by `4u`/`5u` of the TARGET size (`InsideNear`); and it equals the
+    target in one dimension bit for bit (`Touches`).  Together with `meet_fits` (the exact corners have the
+    aspect ratio, lie inside, are aligned) this is the property clause for meet, with rounding relative to
+    the target size (`fitted side ≤ target side`). -/
+theorem aspectMeet_f32 (v : ViewBox F32) (vq : ViewBox ℚ) (dx dy ax ay : F32) (href : Ref v vq)
+    (h : Hyp v.size.1 v.size.2 dx dy ax ay) :
+    Fin4 (v.aspectMeet dx dy ax ay) ∧
+    CornersNear (v.aspectMeet dx dy ax ay) (vq.aspectMeet (val dx) (val dy) (val ax) (val ay)) (val dx) (val dy) ∧
+    InsideNear (v.aspectMeet dx dy ax ay) (val dx) (val dy) ∧
+    Touches (v.aspectMeet dx dy ax ay) dx dy := Fit32.aspectMeet_f32 v vq dx dy ax ay href h
+
+/-- **slice, `F32` instance against `ℚ` instance**.  Here the error is relative to target side + FITTED side
+    (`CornersNear`, `CoversNear`), and the fitted side may be much larger than the target: the clause "up to
+    float32 rounding relative to the target size" is FALSE for slice when the overflow exceeds `2^24` target
+    sizes — see `slice_far_right`. -/
+theorem aspectSlice_f32 (v : ViewBox F32) (vq : ViewBox ℚ) (dx dy ax ay : F32) (href : Ref v vq)
+    (h : Hyp v.size.1 v.size.2 dx dy ax ay) :
+    Fin4 (v.aspectSlice dx dy ax ay) ∧
+    CornersNear (v.aspectSlice dx dy ax ay) (vq.aspectSlice (val dx) (val dy) (val ax) (val ay)) (val dx) (val dy) ∧
+    CoversNear (v.aspectSlice dx dy ax ay) (vq.aspectSlice (val dx) (val dy) (val ax) (val ay)) (val dx) (val dy) ∧
+    Touches (v.aspectSlice dx dy ax ay) dx dy := Fit32.aspectSlice_f32 v vq dx dy ax ay href h
+
+/-- **the hypotheses from a decidable condition on bit patterns**: all four sizes (float width and height
+    of the viewBox, target width and height) in `[2^-30, 2^30]` (`Sized`: `0x30800000 ≤ bits ≤ 0x4E800000`),
+    alignment fractions in `[+0, 1]` (`FracB`: `bits ≤ 0x3F800000`).  (`inRange_of_in30` is the rational
+    form: `InRange` holds whenever the four values lie in `[2^-30, 2^30]`.) -/
+theorem hyp_of_sized {vw vh dx dy ax ay : F32} (h1 : Sized vw) (h2 : Sized vh) (h3 : Sized dx) (h4 : Sized dy)
+    (h5 : FracB ax) (h6 : FracB ay) : Hyp vw vh dx dy ax ay := Fit32.hyp_of_sized h1 h2 h3 h4 h5 h6
+
+theorem inRange_of_in30 {vw vh dx dy : ℚ} (h1 : In30 vw) (h2 : In30 vh) (h3 : In30 dx) (h4 : In30 dy) :
+    InRange vw vh dx dy := Fit32.inRange_of_in30 h1 h2 h3 h4
+
+/-! ### non-vacuity and concrete values (bit patterns; `0x41200000 = 10`, `0x40E00000 = 7`, `0x3F000000 = 0.5`) -/
+
+/-- the 2:1 viewBox `(-2,0)–(2,2)` -/
+def vbA : ViewBox F32 := ⟨⟨0xC0000000⟩, ⟨0⟩, ⟨0x40000000⟩, ⟨0x40000000⟩⟩
+/-- the 3:1 viewBox `(0,0)–(3,1)`: `10/3` is not a float -/
+def vbB : ViewBox F32 := ⟨⟨0⟩, ⟨0⟩, ⟨0x40400000⟩, ⟨0x3F800000⟩⟩
+
+set_option maxRecDepth 100000 in
+example : Sized vbA.size.1 ∧ Sized vbA.size.2 ∧ Sized ⟨0x41200000⟩ ∧ FracB ⟨0x3F000000⟩ := by decide +kernel
+set_option maxRecDepth 100000 in
+example : Hyp vbB.size.1 vbB.size.2 ⟨0x41200000⟩ ⟨0x40E00000⟩ ⟨0x3F000000⟩ ⟨0x3F000000⟩ :=
+  hyp_of_sized (by decide +kernel) (by decide +kernel) (by decide +kernel) (by decide +kernel)
+    (by decide +kernel) (by decide +kernel)
+-- `(0, 2.5, 10, 7.5)` and `(-5, 0, 15, 10)`: the same as the `ℚ` examples above
+set_option maxRecDepth 100000 in
+example : vbA.aspectMeet ⟨0x41200000⟩ ⟨0x41200000⟩ ⟨0x3F000000⟩ ⟨0x3F000000⟩ =
+      (⟨0⟩, ⟨0x40200000⟩, ⟨0x41200000⟩, ⟨0x40F00000⟩) ∧
+    vbA.aspectSlice ⟨0x41200000⟩ ⟨0x41200000⟩ ⟨0x3F000000⟩ ⟨0x3F000000⟩ =
+      (⟨0xC0A00000⟩, ⟨0⟩, ⟨0x41700000⟩, ⟨0x41200000⟩) := by decide +kernel
+-- the exact reference of `vbB` is the rational viewBox `(0,0)–(3,1)`
+set_option maxRecDepth 100000 in
+example : Ref vbB ⟨0, 0, 3, 1⟩ := by
+  have e1 : negB32 vbB.size.1.nb = false ∧ mantB vbB.size.1.nb = 12582912 ∧ expB vbB.size.1.nb = -22 := by
+    decide +kernel
+  have e2 : negB32 vbB.size.2.nb = false ∧ mantB vbB.size.2.nb = 8388608 ∧ expB vbB.size.2.nb = -23 := by
+    decide +kernel
+  unfold Ref val bval sval
+  rw [e1.1, e1.2.1, e1.2.2, e2.1, e2.2.1, e2.2.2]
+  unfold pow2; norm_num
+-- an inexact case: 3:1 into 10×7, centred; meet gives `(0, 1.8333333, 10, 5.1666665)`
+set_option maxRecDepth 100000 in
+example : vbB.aspectMeet ⟨0x41200000⟩ ⟨0x40E00000⟩ ⟨0x3F000000⟩ ⟨0x3F000000⟩ =
+      (⟨0⟩, ⟨1072343723⟩, ⟨0x41200000⟩, ⟨1084577109⟩) := by decide +kernel
+
+/-- **FINDING (slice, "relative to the target size")**: the 2^25:1 viewBox `(0,0)–(33554432,1)` sliced into
+    the 1×1 target with `ax = 1` (align the maxima): all sizes are in `[2^-30, 2^30]` (so `aspectSlice_f32`
+    applies), the exact result is `[1 − 2^25, 1] × [0, 1]`, but the float result is
+    `[−2^25, 0] × [0, 1]` — `maxX = 0`, the returned rectangle does not cover the target `[0,1]` in x at all:
+    `1 − 2^25` rounds to `−2^25` and `−2^25 + 2^25 = 0`.  The error is `2^-24` of the FITTED width, which is
+    the whole target width.  (Go: `ViewBox{0,0,33554432,1}.AspectSlice(1,1,1,0) = (-3.3554432e+07, 0, 0, 1)`.) -/
+def vbFar : ViewBox F32 := ⟨⟨0⟩, ⟨0⟩, ⟨0x4C000000⟩, ⟨0x3F800000⟩⟩
+set_option maxRecDepth 100000 in
+theorem slice_far_right :
+    Hyp vbFar.size.1 vbFar.size.2 ⟨0x3F800000⟩ ⟨0x3F800000⟩ ⟨0x3F800000⟩ ⟨0⟩ ∧
+    vbFar.aspectSlice ⟨0x3F800000⟩ ⟨0x3F800000⟩ ⟨0x3F800000⟩ ⟨0⟩ = (⟨0xCC000000⟩, ⟨0⟩, ⟨0⟩, ⟨0x3F800000⟩) :=
+  ⟨hyp_of_sized (by decide +kernel) (by decide +kernel) (by decide +kernel) (by decide +kernel)
+    (by decide +kernel) (by decide +kernel), by decide +kernel⟩
+
+/-- **the range hypothesis is needed**: width `2^64`, height `2^-64` (finite, positive): the aspect ratio
+    overflows to `+Inf`; slice into the 1×1 target, centred, returns `(-Inf, 0, NaN, 1)`.
+    (Go: `ViewBox{0,0,0x1p64,0x1p-64}.AspectSlice(1,1,.5,.5) = (-Inf, 0, NaN, 1)`.) -/
+def vbHuge : ViewBox F32 := ⟨⟨0⟩, ⟨0⟩, ⟨0x5F800000⟩, ⟨0x1F800000⟩⟩
+set_option maxRecDepth 100000 in
+theorem slice_overflow_nan :
+    vbHuge.aspectSlice ⟨0x3F800000⟩ ⟨0x3F800000⟩ ⟨0x3F000000⟩ ⟨0x3F000000⟩ =
+      (⟨0xFF800000⟩, ⟨0⟩, ⟨0xFFC00000⟩, ⟨0x3F800000⟩) := by decide +kernel
+
 /-!
 ## Not proved in this file
 
-* "up to float32 rounding relative to the target size": the theorems are about the model instantiated
-  at `ℚ`.  No bound on the difference between the `F32` instance (which is bit-exact with Go and is what
-  the differential suite runs) and the `ℚ` instance is proved; in particular at `F32` the `inside` /
-  `covers` inequalities can fail by rounding of `dx / vbAR` or `dy * vbAR`, and the aspect equation holds
-  only approximately.
-* Degenerate inputs (zero or negative viewBox or target size, NaN/Inf) are outside the property.
+* The `F32` theorems assume `Hyp`: float width/height of the viewBox and target sizes finite and positive,
+  alignment fractions finite in `[0,1]`, and `InRange` — the six exact quantities `vw/vh`, `dx/dy`,
+  `dx/(vw/vh)`, `dy·(vw/vh)`, `dx`, `dy` in `[2·2^-126, (2^24−1)·2^104/8]`.  `hyp_of_sized` discharges it
+  when the four sizes are in `[2^-30, 2^30]`.  Outside `InRange` nothing is proved, and the property fails
+  there (`slice_overflow_nan`: finite positive sizes, NaN result).
+* For slice, the property's "relative to the target size" is false (`slice_far_right`); what is proved is
+  relative to target side + fitted side.  For meet the two coincide up to a factor 2.
+* The exact reference is the `ℚ` instance at the values of the FLOAT width and height (`Ref`); the error
+  of `Size()` itself is `size_f32` (relative `2^-24` per dimension) and is not propagated through the
+  fitting (the aspect ratio of a viewBox whose coordinates nearly cancel is ill-conditioned in the
+  coordinates, not in the width and height).
+* The operation-level lemmas (`sub_err`, `FloatErr.add_err/mul_err/div_err`) and `InRange` use the largest
+  finite float `(2^24−1)·2^104` as the upper limit rather than the exact overflow threshold of `Rnd_rel_err`.
+* Degenerate inputs (zero or negative viewBox or target size, NaN/Inf inputs, alignment outside `[0,1]`)
+  are outside the property.
 -/
 
 end Ivg.Props.C12
@@ -95,4 +313,20 @@ end Ivg.Props.C12
   Ivg.Props.C12.meet_alignment,
   Ivg.Props.C12.slice_alignment,
   Ivg.Props.C12.size_eq,
+  Ivg.Props.C12.Rnd_rel_err,
+  Ivg.Props.C12.Rnd_abs_err,
+  Ivg.Props.C12.sub_err,
+  Ivg.Props.C12.size_f32,
+  Ivg.Props.C12.branch_agrees,
+  Ivg.Props.C12.meet_f32,
+  Ivg.Props.C12.slice_f32,
+  Ivg.Props.C12.size_err,
+  Ivg.Props.C12.aspect_eq32,
+  Ivg.Props.C12.returned_size_near,
+  Ivg.Props.C12.aspectMeet_f32,
+  Ivg.Props.C12.aspectSlice_f32,
+  Ivg.Props.C12.hyp_of_sized,
+  Ivg.Props.C12.inRange_of_in30,
+  Ivg.Props.C12.slice_far_right,
+  Ivg.Props.C12.slice_overflow_nan,
   Ivg.Gen.Tie.viewBox_fields_tie]
